@@ -129,6 +129,9 @@ EvFaultH == /\ Consume /\ Ev.ev = "fault" /\ Ev.role = "H"
             /\ \/ hst = "blk0" /\ HandleBlockFault /\ hst' = "blkF"
                \/ hst = "tx0" /\ HandleTxFault /\ hst' = "txF"
                \/ hst = "tx1" /\ hst' = "txF" /\ UNCHANGED vars        \* decided, the write failed: not recorded
+               \* the code tolerates the failed call (a double check it only logs): then the step must have its whole
+               \* fault-free effect - the commit line that follows is held to the same state as without a fault
+               \/ hst \in {"blk0", "blk1", "tx0", "tx1"} /\ UNCHANGED <<vars, hst>>
             /\ UNCHANGED <<wst, pre>>
 EvHSuspended == Consume /\ Ev.ev = "h.suspended" /\ hst = "top" /\ hst' = "susp" /\ UNCHANGED <<vars, wst, pre>>
 EvHResumed   == Consume /\ Ev.ev = "h.resumed" /\ hst = "susp" /\ hst' = "res" /\ UNCHANGED <<vars, wst, pre>>
@@ -167,8 +170,10 @@ WorkerFaultT ==
     /\ tasks # <<>>
     /\ tasks' = Append(Tail(tasks), <<IF Head(tasks)[1] = "remove2" THEN "remove" ELSE Head(tasks)[1], Head(tasks)[2]>>)
     /\ UNCHANGED <<chainVars, wchain, pend, wmem, memp, wexp, up, status, cursor, faulted>>
-EvFaultW == /\ Consume /\ Ev.ev = "fault" /\ Ev.role = "W" /\ wst = "s0" /\ hst \in {"top", "susp"}
-            /\ WorkerFaultT /\ wst' = "sF" /\ UNCHANGED <<hst, pre>>
+EvFaultW == /\ Consume /\ Ev.ev = "fault" /\ Ev.role = "W" /\ hst \in {"top", "susp"}
+            /\ \/ wst = "s0" /\ WorkerFaultT /\ wst' = "sF"
+               \/ wst \in {"s0", "s1"} /\ UNCHANGED <<vars, wst>>        \* tolerated, see EvFaultH
+            /\ UNCHANGED <<hst, pre>>
 EvRollbackWF == Consume /\ Ev.ev = "rollback" /\ Ev.role = "W" /\ wst = "sF" /\ UNCHANGED <<vars, hst, wst, pre>>
 EvWResume  == Consume /\ Ev.ev = "w.resume"  /\ wst \in {"s2", "sF"} /\ wst' = "r"  /\ UNCHANGED <<vars, hst, pre>>
 EvWResumed == Consume /\ Ev.ev = "w.resumed" /\ wst = "r"  /\ wst' = "rd" /\ UNCHANGED <<vars, hst, pre>>
